@@ -131,7 +131,7 @@ package raft
 //@   ensures [C01.vote-unique] result0 == success && r.term == old(r.term) ==> old(r.votedFor) == 0 || old(r.votedFor) == req.src
 //@   ensures [C05.term-monotone] r.term >= old(r.term) && (r.term == old(r.term) || r.term == req.term)
 //@   ensures [C05.vote-sticky] r.term == old(r.term) && old(r.votedFor) != 0 ==> r.votedFor == old(r.votedFor)
-//@   ensures [C02.uptodate] result0 == success && !(r.term == old(r.term) && old(r.votedFor) == req.src) ==>
+//@   ensures [C02+C16.uptodate] result0 == success && !(r.term == old(r.term) && old(r.votedFor) == req.src) ==>
 //@       req.lastLogTerm > r.lastLogTerm || (req.lastLogTerm == r.lastLogTerm && req.lastLogIndex >= r.lastLogIndex)
 //@   ensures [C17.leader-known] !req.transfer && old(r.leader) != 0 && req.src != old(r.leader) ==>
 //@       result0 == leaderKnown && r.term == old(r.term) && r.votedFor == old(r.votedFor) && r.state == old(r.state)
@@ -543,8 +543,7 @@ package raft
 //@   inline
 
 // STUBS until the codec contracts (C18) are in place: decoding a request only writes the request object
-//@ func (*installSnapReq).decode
-//@   trusted
+//@ view (*installSnapReq).decode at (*Raft).replyRPC
 //@   modifies all(req)
 
 // onRequest dispatches to the four handlers (each verified on its own) and converts panics
